@@ -269,6 +269,10 @@ func runConn(cc connCase, stream []byte) connObs {
 	defer conn.Close()
 	conn.SetDeadline(time.Now().Add(connDeadline))
 	raw := tap.raw
+	// the deadline set above belongs to the implementation once it is handed the connection (it may
+	// re-arm or clear it): the harness's own bound on every wait below is the guard
+	g := newGuard(connDeadline+500*time.Millisecond, raw, peer)
+	defer g.stop()
 
 	peerDone := make(chan []byte, 1)
 	go func() {
@@ -306,6 +310,9 @@ func runConn(cc connCase, stream []byte) connObs {
 					var ne net.Error
 					if errors.As(err, &ne) && ne.Timeout() && !strings.Contains(err.Error(), "header read timeout") {
 						o.problem = "hang: read deadline of the harness expired: " + err.Error()
+					}
+					if g.fired.Load() {
+						o.problem = "hang: still waiting when the harness closed the sockets at its deadline: " + err.Error()
 					}
 				}
 				return
@@ -404,6 +411,9 @@ func runStall(sc stallCase, prefix []byte) stallObs {
 	}
 	// the harness's own deadline: past it the call is still waiting (for payload, if the header was accepted)
 	conn.SetDeadline(time.Now().Add(to + stallSlack))
+	// ... which the implementation may re-arm or clear; the guard is the harness's own bound
+	g := newGuard(to+stallSlack+300*time.Millisecond, tap.raw, peer)
+	defer g.stop()
 	t0 := time.Now()
 	buf := make([]byte, 64)
 	var rerr error
@@ -419,7 +429,7 @@ func runStall(sc stallCase, prefix []byte) stallObs {
 		o.remote = canonAddr(conn.RemoteAddr(), tap.raw.RemoteAddr())
 	}
 	o.errClass = errClass(rerr)
-	waiting := rerr != nil && errors.Is(rerr, os.ErrDeadlineExceeded) && !errors.Is(rerr, context.DeadlineExceeded)
+	waiting := rerr != nil && (errors.Is(rerr, os.ErrDeadlineExceeded) && !errors.Is(rerr, context.DeadlineExceeded) || g.fired.Load())
 	if pc, ok := conn.(*proxyproto.Conn); ok {
 		_, herr := pc.Header()
 		o.accepted = herr == nil
